@@ -60,6 +60,7 @@ type Violation struct {
 	Schedule json.RawMessage `json:"schedule,omitempty"`
 	Trace    json.RawMessage `json:"trace,omitempty"`
 	Replays  int             `json:"replays_identical"`
+	Bound    string          `json:"bound,omitempty"`
 	Unit     string          `json:"unit,omitempty"`
 	Tags     string          `json:"tags,omitempty"`
 	Race     bool            `json:"race,omitempty"`
@@ -409,6 +410,15 @@ func runCheck(chk *Check, tier, replay string, keep bool, only string) int {
 					cmd.Env = append(cmd.Env, fmt.Sprintf("MC_BUDGET_S=%d", budget))
 				}
 				cmd.Env = append(cmd.Env, j.b.u.Env...)
+				{
+					var ks []string
+					for _, k := range loadKnown().Findings {
+						if k.Property == chk.ID {
+							ks = append(ks, k.Sig)
+						}
+					}
+					cmd.Env = append(cmd.Env, "MC_KNOWN="+strings.Join(ks, "\x1f"))
+				}
 				// hard wall limit: a harness that overruns its internal budget by far is an infrastructure error
 				hard := time.Duration(budget*3+900) * time.Second
 				timer := time.AfterFunc(hard, func() {
